@@ -19,7 +19,7 @@ def frame(kind, name, nxt):
     if kind == "generic": return "func %s[T any](v T) {\n\t%s\n}\n" % (name, nxt), "a", "%s[int](3)" % name
     if kind == "genmethod": return "type G%s[T any] struct{ v T }\n\nfunc (g G%s[T]) Do() {\n\t%s\n}\n" % (name, name, nxt), "a", "g%s := G%s[string]{\"v\"}\n\tg%s.Do()" % (name, name, name)
     if kind == "closure": return "func %s() {\n\tinner := func() {\n\t\t%s\n\t}\n\tinner()\n}\n" % (name, nxt), "a", "%s()" % name
-    if kind == "goroutine": return "func %s() {\n\tdone := make(chan struct{})\n\tgo %sworker(done)\n\t<-done\n}\n\nfunc %sworker(done chan struct{}) {\n\tdefer close(done)\n\t%s\n}\n" % (name, name, name, nxt), "b", "%s()" % name
+    if kind == "goroutine": return "func %s() {\n\tdone := make(chan struct{})\n\tgo %sworker(done)\n\t<-done\n}\n\nfunc %sworker(done chan struct{}) {\n\t%s\n\tclose(done) // not deferred: a panicking worker must not let main exit before the trace is printed\n}\n" % (name, name, name, nxt), "b", "%s()" % name
     if kind == "deferred": return "func %s() {\n\tdefer %sdeferred()\n}\n\nfunc %sdeferred() {\n\t%s\n}\n" % (name, name, name, nxt), "a", "%s()" % name
     if kind == "deferclosure": return "func %s() {\n\tdefer func() {\n\t\t%s\n\t}()\n}\n" % (name, nxt), "a", "%s()" % name
     if kind == "iface": return "type I%s interface{ Act() }\n\ntype i%s struct{}\n\nfunc (i%s) Act() {\n\t%s\n}\n" % (name, name, name, nxt), "b", "var v%s I%s = i%s{}\n\tv%s.Act()" % (name, name, name, name)
@@ -118,8 +118,10 @@ for fl, res, err, d in pmap(cfg_run, CONFIGS, workers=4):
             continue
         for (wf, wp), (gf, gp) in zip(want, got):
             compared += 1
-            if wf != gf and "-literals" in fl and re.sub(r"\.func\d+", ".funcN", wf) == re.sub(r"\.func\d+", ".funcN", gf):
+            cn = lambda x: re.sub(r"^((?:created by )?)main\.main\.", r"\1main.", re.sub(r"\.func\d+", ".funcN", x))
+            if wf != gf and "-literals" in fl and ".func" in wf and cn(wf) == cn(gf):
                 # literal obfuscation adds function literals, which shifts the compiler's numbering of the user's own closures
+                # (and, through inlining, the function a closure frame is named after)
                 R.violation("function-name:closure-index-under-literals", "flags %s chain %s/%s: frame %r reversed to %r" % (fl, kinds, term, wf, gf), {"module/" + k: v for k, v in files.items()})
             elif wf != gf:
                 R.violation("function-name:" + "+".join(kinds), "flags %s chain %s/%s: frame %r reversed to %r" % (fl, kinds, term, wf, gf), {"module/" + k: v for k, v in files.items()})
